@@ -21,6 +21,7 @@ REGISTRY = {
     "T5pop": ("T5pop.v", "t5_pop", "gen"),
     "T5opa": ("T5opa.v", "t5_opa", "gen"),
     "T5whiten": ("T5whiten.v", "t5_whiten", "gen"),
+    "T5hil": ("T5hil.v", "t5_hilbert", "gen"),
     "T5cpcca": ("T5cpcca.v", "t5_cpcca", "gen"),
     "T5boot": ("T5boot.v", "t5_boot", "gen"),
     "T6san": ("T6san.v", "t6_sanitizer", "gen"),
